@@ -586,14 +586,16 @@ fn gen(rng: &mut Rng, tier: Tier) -> Vec<Case> {
         out.push(Case::new(format!("uhash {} {} {} {} {} {}", rev, n, hx(&upw), hex(&o), p, idf), format!("uhash {}", tag)));
         // validation: right password, wrong password, damaged U
         out.push(Case::new(format!("vuser {} {} {} {} {} {} {}", rev, n, hx(&upw), hex(&u), hex(&o), p, idf), format!("vuser right {}", tag)));
-        let wrong = format!("{}x", upw);
+        let wrong = format!("x{}", upw);
         out.push(Case::new(format!("vuser {} {} {} {} {} {} {}", rev, n, hx(&wrong), hex(&u), hex(&o), p, idf), format!("vuser wrong {}", tag)));
         let mut u2 = u.clone();
         let i = rng.below(32) as usize;
         u2[i] ^= 0x40;
         out.push(Case::new(format!("vuser {} {} {} {} {} {} {}", rev, n, hx(&upw), hex(&u2), hex(&o), p, idf), format!("vuser damaged{} {}", if i < 16 { "-lo" } else { "-hi" }, tag)));
-        out.push(Case::new(format!("vowner {} {} {} {} {} {} none", rev, n, hx(&opw), hex(&o), p, idf), format!("vowner right {}", tag)));
-        out.push(Case::new(format!("vowner {} {} {} {} {} {} none", rev, n, hx(&wrong), hex(&o), p, idf), format!("vowner wrong {}", tag)));
+        // (the U entry is passed along for the oracle; the function ignores it for R2–R4)
+        let shape = if upw.is_empty() { "uempty" } else if upw.contains('(') { "uparen" } else if upw.len() >= 32 { "ulong" } else { "uplain" };
+        out.push(Case::new(format!("vowner {} {} {} {} {} {} {}", rev, n, hx(&opw), hex(&o), p, idf, hex(&u)), format!("vowner right {} {}", shape, tag)));
+        out.push(Case::new(format!("vowner {} {} {} {} {} {} {}", rev, n, hx(&wrong), hex(&o), p, idf, hex(&u)), format!("vowner wrong {} {}", shape, tag)));
         // the reader's unlock paths on the same dictionary (document revision = rev; for
         // rev 4 both the RC4 (/V2) and the AES (/AESV2) crypt filter; EncryptMetadata both ways)
         let (v, cfm) = match rev {
@@ -693,7 +695,7 @@ fn gen(rng: &mut Rng, tier: Tier) -> Vec<Case> {
         let ue = if rev == 5 { h.compute_r5_ue_entry(&up, &u, &ek) } else { h.compute_r6_ue_entry(&up, &u, &ek) }.unwrap();
         let oe = if rev == 5 { h.compute_r5_oe_entry(&op, &o, &u, &key) } else { h.compute_r6_oe_entry(&op, &o, &u, &key) }.unwrap();
         let perms = h.compute_perms_entry(Permissions::from_bits(p), &ek, true).unwrap();
-        let wrong = format!("{}x", upw);
+        let wrong = format!("x{}", upw);
         out.push(Case::new(format!("uent {} {}", rev, hx(&upw)), format!("uent {}", tag)));
         out.push(Case::new(format!("oent {} {} {}", rev, hx(&opw), hex(&u)), format!("oent {}", tag)));
         out.push(Case::new(format!("ue {} {} {} {}", rev, hx(&upw), hex(&u), hex(&key)), format!("ue {}", tag)));
